@@ -57,6 +57,27 @@ def runOpEdit (op : String) (args : List String) : String :=
             let gone := tracePositions o a
             let expectSent := (dropPositions (a.terminals.map fun l =>
                 if l.fields.label == NONE_POS then (some NONE_POS, traceLabel o (l.fields.word.getD [])) else (l.fields.word, l.fields.label)) gone)
+            -- with `slash`: kept traces without a filler are deleted as well (nothing else), and labels of constituents
+            -- grow by pieces "/X" after the cleaned label (TT.Props.C11Slash: slash_tokens, slash_labels)
+            let isSlash := c.has "slash"
+            let nt : Tok → Bool := fun tk => tk.1 != some NONE_POS
+            let slashed : Str → Str → Bool := fun l base =>
+              base.isPrefixOf l && (let suf := l.drop base.length; suf.isEmpty || suf.head? == some '/')
+            if isSlash then
+              firstFail [okIf (b.sentence.isSublist expectSent && b.sentence.filter nt == expectSent.filter nt)
+                  "wrong-tokens-after-trace-deletion",
+                okIf (b.leafNums.isEmpty || b.yield == List.range' 1 b.leafNums.length) "numbering-has-holes",
+                okIf (match b with | node _ ks => noEmptyL ks | _ => true) "childless-constituent-left",
+                okIf (match b with | node _ _ => true | _ => false) "not-the-root",
+                okIf (b.subtrees.all fun s => match s with
+                    | node f (_ :: _) => noIndexLeft o.keepcoindex f.label
+                    | _ => true) "index-left-on-label",
+                okIf (b.subtrees.all fun s => match s, s.fields.uid with
+                    | node f (_ :: _), some u => (match findUid a u with
+                        | some s' => slashed f.label (cleanLabel o s'.fields.label)
+                        | none => false)
+                    | _, _ => true) "label-not-cleaned-plus-slash-pieces"]
+            else
             firstFail [okIf (b.sentence == expectSent) "wrong-tokens-after-trace-deletion",
               okIf (b.yield == List.range' 1 b.leafNums.length) "numbering-has-holes",
               okIf (match b with | node _ ks => noEmptyL ks | _ => true) "childless-constituent-left",
